@@ -111,6 +111,11 @@ Definition opl_rows : list (string * string * string) :=
   flat_map (fun op => flat_map (fun l => map (fun lp => (op, l, lp)) (filter (form_exists l) prov_forms)) op_types) all_ops.
 Definition op_cells_left : list (N * string * string) :=
   filter (fun c => match c with (_, _, f) => mem_str f ["lit"; "local"] end) op_cells_existing.
+(* other spellings of a literal and a header sub-field as right operand: (bit, variant, value type, form of the base cell) *)
+Definition lit_variants : list (N * string * string * string) :=
+  [(0, "int-neg", "INTEGER", "lit"); (1, "float-neg", "FLOAT", "lit"); (2, "rtime-m", "RTIME", "lit"); (3, "rtime-h", "RTIME", "lit");
+   (4, "rtime-d", "RTIME", "lit"); (5, "rtime-y", "RTIME", "lit"); (6, "rtime-ms", "RTIME", "lit"); (7, "str-long", "STRING", "lit");
+   (8, "bool-false", "BOOL", "lit"); (9, "hdr-field", "header", "local")]%N.
 Definition obs_op_key (r : string * string * N * N) : string * string := match r with (o, l, _, _) => (o, l) end.
 
 (* ---- known gaps: (kind, name, at, bits) *)
